@@ -104,8 +104,104 @@ def optVecCmp : Option (List Q) → Option (List Q) → Cmp
   | some a, some b => cmpVec a b
   | _, _ => .different
 
-/-- first point where the implementation's `evaluate` result differs from `spec x`; `inexact` flags rounding noise -/
-def firstEvalDiff (spec : List Q → Option (List Q)) (pts : List (List Q × EvalRes)) :
+/-! ### Which floating-point evaluations are decided exactly
+
+The implementation evaluates `mat·x − bias ≤ 0` in binary64.  The judge compares it with the exact evaluation of the same
+(dumped) tree.  A decision is *float-decisive* at `x` when the sign computed in binary64 provably equals the exact sign:
+
+* **window-exact** — all the products `aₖxₖ` and the bias are multiples of one `2^e` and `Σ|aₖxₖ| + |b| < 2^(e+53)`:
+  every partial sum, in any order of summation, is representable, so the computed value is the exact one; or
+* **robust** — `|a·x − b| ≥ 2⁻⁴⁰·(Σ|aₖxₖ| + |b|)`, far above the accumulated rounding error of a dot product.
+
+At an input that misses a hyperplane by a hair *and* whose coordinates make the products inexact, binary64 cannot decide
+the side; a difference from the exact model there is rounding (INEXACT), not a verdict about the code.  At a
+float-decisive input a difference is a genuine one. -/
+
+/-- exponent of the lowest set bit of a dyadic rational (`none` for `0` and for non-dyadic numbers) -/
+def dyadicVal? (q : Q) : Option Int :=
+  if q == 0 then none
+  else
+    let d := q.den
+    let ld := d.log2
+    if 2 ^ ld != d then none
+    else
+      let n := q.num.natAbs
+      -- lowest set bit of n
+      let rec low (n : Nat) (fuel : Nat) (k : Nat) : Nat :=
+        match fuel with
+        | 0 => k
+        | f+1 => if n % 2 == 1 then k else low (n / 2) f (k+1)
+      some ((low n (n.log2 + 1) 0 : Nat) - (ld : Int))
+
+def pow2Q (e : Int) : Q := if e ≥ 0 then (2 : Q) ^ e.toNat else 1 / (2 : Q) ^ (-e).toNat
+
+/-- one row `a·x − b` : is its sign decided in binary64 as in exact arithmetic? -/
+def rowDecisive (a : List Q) (b : Q) (x : List Q) : Bool :=
+  let terms := (a.zip x).map (fun p => p.1 * p.2) ++ [b]
+  let nz := terms.filter (· != 0)
+  let s := nz.foldl (fun acc t => acc + absQ t) 0
+  let m := dot a x - b
+  if nz.isEmpty then true
+  else
+    let robust := decide (absQ m * (2 : Q) ^ 40 ≥ s)
+    let window :=
+      match nz.foldl (fun (acc : Option Int) t => match acc, dyadicVal? t with
+                        | some e, some v => some (min e v) | _, _ => none) (some 4096) with
+      | some e => decide (s < pow2Q (e + 53))
+      | none => false
+    robust || window
+
+/-- every row of an affine map is computed without rounding in binary64 -/
+def affWindowExact (f : Aff Q) (x : List Q) : Bool :=
+  (f.mat.zip f.bias).all (fun rb =>
+    let terms := (rb.1.zip x).map (fun p => p.1 * p.2) ++ [rb.2]
+    let nz := terms.filter (· != 0)
+    let s := nz.foldl (fun acc t => acc + absQ t) 0
+    nz.isEmpty ||
+      (match nz.foldl (fun (acc : Option Int) t => match acc, dyadicVal? t with
+                        | some e, some v => some (min e v) | _, _ => none) (some 4096) with
+       | some e => decide (s < pow2Q (e + 53))
+       | none => false))
+
+/-- magnitude of the terms summed at a terminal: bounds the rounding error of its value -/
+def affScale (f : Aff Q) (x : List Q) : Q :=
+  (f.mat.zip f.bias).foldl (fun acc rb =>
+    max acc (((rb.1.zip x).map (fun p => absQ (p.1 * p.2))).foldl (· + ·) (absQ rb.2))) 1
+
+mutual
+/-- walk the exact path of `x`: are all decisions float-decisive, and how large are the terms at the terminal -/
+def PT.faith : PT Q → List Q → Bool × Q
+  | .node _ c kids, x =>
+    if kids.allNone then (true, affScale c.aff x)
+    else
+      let ok := (c.aff.mat.zip c.aff.bias).all (fun rb => rowDecisive rb.1 rb.2 x)
+      if !ok then (false, 1) else PKids.faithAt kids (c.aff.label x) x
+def PKids.faithAt : PKids Q → Nat → List Q → Bool × Q
+  | .nil, _, _ => (true, 1)
+  | .cons none _, 0, _ => (true, 1)
+  | .cons (some t) _, 0, x => PT.faith t x
+  | .cons _ r, n+1, x => PKids.faithAt r n x
+end
+
+/-- compare the implementation's `evaluate` on its tree `h` (exactly as dumped) at `x` with the expected value: a
+    difference counts only where binary64 decides every decision on the path like exact arithmetic, and where it exceeds
+    the rounding error of the terminal's value -/
+def evalCmp (h : PT Q) (x : List Q) (want got : Option (List Q)) : Cmp :=
+  match optVecCmp want got with
+  | .different =>
+    let (dec, scale) := PT.faith h x
+    if !dec then .close
+    else
+      match want, got with
+      | some a, some b =>
+        if a.length == b.length && (a.zip b).all (fun p => decide (absQ (p.1 - p.2) * (2 : Q) ^ 36 ≤ scale)) then .close
+        else .different
+      | _, _ => .different
+  | c => c
+
+/-- first point where the implementation's `evaluate` result on its tree `h` differs from `spec x`; `inexact` flags
+    rounding noise -/
+def firstEvalDiff (h : PT Q) (spec : List Q → Option (List Q)) (pts : List (List Q × EvalRes)) :
     Option (List Q × Option (List Q) × EvalRes) × Bool :=
   pts.foldl (fun (acc : Option (List Q × Option (List Q) × EvalRes) × Bool) p =>
     match acc.1 with
@@ -114,7 +210,7 @@ def firstEvalDiff (spec : List Q → Option (List Q)) (pts : List (List Q × Eva
       match p.2 with
       | .panic => (some (p.1, spec p.1, p.2), acc.2)
       | .val v =>
-        match optVecCmp (spec p.1) v with
+        match evalCmp h p.1 (spec p.1) v with
         | .same => acc
         | .close => (none, true)
         | .different => (some (p.1, spec p.1, p.2), acc.2)) (none, false)
